@@ -317,8 +317,6 @@ def run(ctx):
     rnd.shuffle(trs)
     nreads = sum(len(t["reads"]) for t in trs)
     for t in trs:
-        if not t["shape_ok"]:
-            ctx.violation("open:Shape", f"{t['spec']['kind']} {t['fmt']}: Reader.shape differs from (ns, nc)", scenario(t, None))
         for rd in t["reads"]:
             ctx.count(1, key=(t["ns"], t["nc"], t["fmt"], t["sort"], sel_key(rd["nsel"]), sel_key(rd["csel"]))
                       if (rd["toks"] or rd["exc"]) else None)
